@@ -99,6 +99,10 @@ pub struct FnSpec {
     /// outlined closure: the first params of `params=` are the closure's own parameters, in order (a closure
     /// parameter named differently is re-bound at the start of the body)
     pub bind: bool,
+    /// function-level degradation: the function could not be extracted (reason); it is emitted as its signature +
+    /// contract with an external body and its contract's tags are neutralised, so that exactly the properties with
+    /// an obligation in this function become undecided while the rest of the unit is still verified
+    pub degrade: Option<String>,
     pub closure_spans: Vec<(usize, (usize, usize))>,
     pub pin_idents: BTreeSet<String>,
     pub ref_params: BTreeSet<String>,
